@@ -3,7 +3,9 @@ package mon
 import (
 	"encoding/json"
 	"fmt"
+	"math"
 	"math/big"
+	"strconv"
 	"strings"
 
 	"github.com/woodsbury/decimal128"
@@ -505,8 +507,102 @@ func init() {
 		Streams: []Stream{
 			{Name: "assignments", N: func(c *Ctx) int { return tierN(c, 20000, 1000000) }, Run: c14Run},
 			{Name: "dyadic-deep", N: func(c *Ctx) int { return tierN(c, 6000, 600000) }, Run: c14DyadicDeep},
+			{Name: "shortest-repr", N: func(c *Ctx) int { return tierN(c, 1500, 150000) }, Run: c14Shortest},
 			{Name: "precise", N: func(c *Ctx) int { return len(c14Precise) * len(c14PreciseTemplates) }, Run: c14PreciseRun, Exhaustive: true},
 			{Name: "boundary", N: func(c *Ctx) int { return len(c14Big) * len(c14BigTemplates) }, Run: c14Boundary, Exhaustive: true},
 		},
 	})
+}
+
+// c14Shortest: a float64 and the short decimal that prints it.  x is the float64 nearest to a
+// decimal d of at most 15 (sometimes 16-17) significant digits that is not itself a binary
+// fraction, chosen large enough (|x| >= 2^26) that x's exact value has at most 34 significant digits
+// and so travels exactly in every carrier.  x and d are different numbers; a comparison between them
+// must come out the same whether x arrives as float64, as json.Number (exact expansion) or as
+// decimal128 - a shortcut that compares "the float" with "the float of the literal" says equal.
+func c14Shortest(c *Ctx, idx int) {
+	r := c.Rand("")
+	var d string
+	var x float64
+	var exact string
+	for try := 0; try < 50; try++ {
+		ip := 1 + r.Intn(13)
+		var b strings.Builder
+		b.WriteByte(byte('1' + r.Intn(9)))
+		for i := 1; i < ip; i++ {
+			b.WriteByte(byte('0' + r.Intn(10)))
+		}
+		fd := 1 + r.Intn(4)
+		if ip+fd > 15 && idx%4 != 0 {
+			fd = 15 - ip
+			if fd < 1 {
+				continue
+			}
+		}
+		b.WriteByte('.')
+		for i := 0; i < fd; i++ {
+			b.WriteByte(byte('0' + r.Intn(10)))
+		}
+		d = strings.TrimRight(b.String(), "0")
+		if strings.HasSuffix(d, ".") {
+			continue
+		}
+		if r.Chance(30) {
+			d = "-" + d
+		}
+		f, err := strconv.ParseFloat(d, 64)
+		if err != nil || math.Abs(f) < 1<<26 {
+			continue
+		}
+		bf := new(big.Float).SetFloat64(f)
+		exact = bf.Text('f', 60)
+		exact = strings.TrimRight(strings.TrimRight(exact, "0"), ".")
+		digits := len(strings.NewReplacer("-", "", ".", "").Replace(exact))
+		if digits > 34 || exact == d {
+			continue
+		}
+		x = f
+		break
+	}
+	if x == 0 {
+		return
+	}
+	dec, err := decimal128.Parse(exact)
+	if err != nil {
+		return
+	}
+	carriers := []any{json.Number(exact), x, dec, json.Number(exact + "0")}
+	if float64(float32(x)) == x {
+		carriers = append(carriers, float32(x))
+	}
+	templates := []string{"x == `D`", "x != `D`", "x > `D`", "x < `D`", "x >= `D`", "x <= `D`", "`D` == x", "contains([x], `D`)", "contains(`[D]`, x)", "[x] == `[D]`", "{a: x} == `{\"a\": D}`", "xs[?@ == `D`]", "xs[?@ > `D`] | length(@)",
+		"x == d", "d == x", "x < d", "contains(xs, d)", "xs[?@ == $.d] | length(@)", "sort([x, d])[0] == x", "max([x, d]) == x", "min_by([{k: x}, {k: d}], &k).k == x", "x - d == `0`", "x - `D` > `0`", "[x, d] | @[0] == @[1]", "let $x = x in $x == `D`"}
+	for _, tm := range templates {
+		text := strings.ReplaceAll(tm, "D", d)
+		var base LibOut
+		for i, cv := range carriers {
+			data := map[string]any{"x": cv, "d": json.Number(d), "xs": []any{cv, json.Number(d), json.Number("1")}}
+			l := c.LibSearch(text, data)
+			if l.Panic != nil {
+				break
+			}
+			if i == 0 {
+				base = l
+				continue
+			}
+			if !SameOutcome(base, l, false) {
+				c.Report(Violation{Rule: "C14/representation-dependent", Expr: text, Data: gen.Describe(data), Got: ShowOut(l), Want: ShowOut(base) + "  (x as json.Number " + exact + ")", Features: map[string]string{"stream": "shortest-repr", "template": tm}})
+			}
+		}
+		doc := ref.NewObj()
+		doc.Set("x", gen.Num(exact))
+		doc.Set("d", gen.Num(d))
+		doc.Set("xs", &ref.Arr{E: []ref.V{gen.Num(exact), gen.Num(d), gen.Num("1")}})
+		if m := ref.Search(text, doc); !m.Unspec {
+			if judged, ok, why := Agree(m, base); judged && !ok {
+				c.Report(Violation{Rule: "C14/model", Expr: text, Data: "x = " + exact, Got: ShowOut(base), Want: m.String(), Detail: why, Features: map[string]string{"stream": "shortest-repr"}})
+			}
+		}
+		c.Nontrivial(text)
+	}
 }
